@@ -43,17 +43,38 @@ class FakeUDPPort(object):
     pass
 
 
+_zero_calls = []
+_hooked = [False]
+
+
+def _hook_reactor():
+  """Remember the calls scheduled on the global reactor with (next to) no delay: those are what a running reactor would
+  execute before the next read.  Looking through all pending calls instead is quadratic (idle timers pile up)."""
+  if _hooked[0]:
+    return
+  _hooked[0] = True
+  from twisted.internet import reactor
+  real = reactor.callLater
+
+  def callLater(delay, f, *a, **kw):
+    dc = real(delay, f, *a, **kw)
+    if delay <= 0.001:
+      _zero_calls.append(dc)
+    return dc
+  reactor.callLater = callLater
+
+
 def run_due_reactor_calls(preexisting=()):
   """What a running reactor does between two reads: calls scheduled with reactor.callLater(0, ...) (by carbon, during this
   session) are run.  The global reactor is never started in the harness, so its due calls are run by hand."""
-  from twisted.internet import reactor
   n = 0
   for _ in range(200):
-    now = reactor.seconds()
-    due = [dc for dc in reactor.getDelayedCalls() if dc.active() and dc.getTime() <= now + 0.001 and id(dc) not in preexisting]
-    if not due:
+    if not _zero_calls:
       break
-    for dc in sorted(due, key=lambda d: d.getTime()):
+    due, _zero_calls[:] = list(_zero_calls), []
+    for dc in due:
+      if not dc.active():
+        continue
       f, a, kw = dc.func, dc.args, dc.kw
       dc.cancel()
       f(*a, **kw)
@@ -68,8 +89,9 @@ def tcp_session(cls, segments, rec, keep=False, clock=None, gaps=None):
   t = StringTransport()
   if clock is not None:
     p.callLater = clock.callLater        # TimeoutMixin's hook for its idle timer
-  from twisted.internet import reactor as _reactor
-  pre = set(id(dc) for dc in _reactor.getDelayedCalls())
+  _hook_reactor()
+  pre = ()
+  del _zero_calls[:]
   p.makeConnection(t)
   rec.take()
   exc = None
@@ -136,6 +158,11 @@ def tcp_session_with_pause(cls, segments, rec, at):
 def close(p):
   try:
     p.connectionLost(Failure(ConnectionDone()))
+  except Exception:
+    pass
+  try:
+    if hasattr(p, 'setTimeout'):
+      p.setTimeout(None)       # twisted cancels the idle timer of a closed connection with its transport; do the same
   except Exception:
     pass
 
